@@ -1093,6 +1093,17 @@ func runDoubleAccumulation(p *Prog, r *Report) {
 							}
 						}
 					}
+					// a Builder / Buffer emptied in between: acc.Reset()
+					ast.Inspect(fn.Body, func(k ast.Node) bool {
+						call, ok := k.(*ast.CallExpr)
+						if !ok || call.Pos() < a.rs.End() || call.End() > b.rs.Pos() || len(call.Args) != 0 {
+							return true
+						}
+						if sel, ok := ast.Unparen(call.Fun).(*ast.SelectorExpr); ok && sel.Sel.Name == "Reset" && isIdentObj(info, sel.X, o) && fn.Dominates(call, b.rs.X) {
+							reinit = true
+						}
+						return true
+					})
 					if reinit || !reachesStmt(fn, a.rs.X, b.rs.X, nil) {
 						r.Add("E15.double-accumulation", fn.Name, key, p.Pos(b.rs), OK, "the second loop is not reached after the first, or the accumulator is re-initialised in between", true)
 						continue
